@@ -87,6 +87,11 @@ PROGRAMS = {
                        M("read", "det", run="k1"), M("save", run="k1"), M("create", run="k2", a="primary"),
                        M("read", "det2", run="k2"), M("save", run="k2"), M("close_run", run="k1"), M("checkpoint"),
                        M("close_run", run="k2")]},
+    # one of two concurrent runs is closed (an implicit checkpoint for ALL open runs) while the other one has events since the
+    # last explicit checkpoint and goes on taking data afterwards
+    "multi_close": {"msgs": [M("open_run", run="k1"), M("open_run", run="k2"), M("checkpoint"), M("create", run="k2", a="primary"),
+                             M("read", "det2", run="k2"), M("save", run="k2"), M("close_run", run="k1"), M("null"), M("null"),
+                             M("create", run="k2", a="primary"), M("read", "det2", run="k2"), M("save", run="k2"), M("close_run", run="k2")]},
     "defer": {"msgs": [M("open_run"), M("null"), M("checkpoint"), M("null"), M("null"), M("checkpoint"), M("null"), M("close_run")]},
     "norew": {"msgs": [M("open_run"), M("checkpoint"), M("null"), M("rewindable", a="F"), M("null"), M("null"),
                        M("rewindable", a="T"), M("null"), M("close_run")]},
@@ -99,6 +104,8 @@ PROGRAMS = {
     # a non-resumable section in which implicit-checkpoint commands are executed (they must NOT make the plan resumable again);
     # the run is left open: the engine closes it, with the status the way the call ended dictates
     "nores_open": {"msgs": [M("open_run"), M("checkpoint"), M("clear_checkpoint"), M("stage", "det"), M("null"), M("unstage", "det"), M("null")]},
+    # ... and in which rewinding is switched off and on again (rewindable is not resumable)
+    "nores_rew": {"msgs": [M("open_run"), M("checkpoint"), M("clear_checkpoint"), M("rewindable", a="F"), M("null"), M("rewindable", a="T"), M("null"), M("null")]},
     "openonly": {"msgs": [M("open_run"), M("checkpoint"), M("sleep"), M("null")]},
     # pauses requested by the plan itself (Msg('pause')): resumable, deferred, and in a non-resumable section with the run left open
     "selfpause": {"msgs": [M("open_run"), M("checkpoint"), M("null"), M("pause", a="F"), M("null"), M("checkpoint"), M("pause", a="T"), M("null"),
@@ -107,6 +114,9 @@ PROGRAMS = {
     "selfdefer_nores": {"msgs": [M("open_run"), M("checkpoint"), M("pause", a="T"), M("clear_checkpoint"), M("null"), M("checkpoint"), M("null")]},
     # bundle / descriptor / run-key behaviour (monitored; commands beyond RE.tla's vocabulary are not conformance-checked)
     "collide": {"msgs": [M("open_run"), M("checkpoint"), M("create", a="primary"), M("read", "det"), M("read", "det"), M("save"), M("close_run")]},
+    # the colliding reading is not adjacent to the one it collides with
+    "collide3": {"msgs": [M("open_run"), M("checkpoint"), M("create", a="primary"), M("read", "det"), M("read", "det2"), M("read", "det"), M("save"),
+                          M("close_run")]},
     "emptysave": {"msgs": [M("open_run"), M("checkpoint"), M("create", a="primary"), M("save"), M("create", a="primary"), M("read", "det"), M("drop"),
                            M("create", a="baseline"), M("read", "det2"), M("save"), M("checkpoint"),
                            M("create", a="primary"), M("read", "det"), M("read", "motor"), M("save"), M("create", a="primary"), M("read", "motor"), M("drop"),
@@ -131,7 +141,7 @@ PROGRAMS = {
     "cfginb": {"msgs": [M("open_run"), M("checkpoint"), M("create", a="primary"), M("read", "det"), M("configure", "det"), M("save"), M("close_run")]},
 }
 ASYNC_PLANS = {"amove", "aopen"}      # devices whose stop()/pause()/resume() are coroutines that really suspend
-MULTI_RUN_PLANS = {"multi", "multimon", "dupopen"}
+MULTI_RUN_PLANS = {"multi", "multimon", "dupopen", "multi_close"}
 NOT_CONFORMANCE = set()        # use commands RE.tla does not model (yet): monitored only
 
 BUILTINS = {
@@ -439,7 +449,7 @@ def corpus_spec(tier):
     """the list of sweeps that make up the corpus"""
     quick = tier == "quick"
     sweeps = []
-    progs = ["simple", "two", "fin", "move", "mon", "multi", "defer", "norew", "paus", "err", "openonly", "nores_open", "amove", "aopen",
+    progs = ["simple", "two", "fin", "move", "mon", "multi", "defer", "norew", "paus", "err", "openonly", "nores_open", "nores_rew", "multi_close", "amove", "aopen",
              "selfpause", "selfpause_nores", "selfdefer_nores", "norew_save"]
     kinds = REQ_KINDS
     if quick:
@@ -477,7 +487,7 @@ def build_corpus(tier, only=None):
     scs += defer_pair_scenarios(tier)
     scs += double_suspension_scenarios(tier)
     scs += two_call_scenarios(tier)
-    for pn, lst in sweep(["collide", "emptysave", "ckptinb", "dupopen", "cfg", "cfginb", "cfgdrop", "multimon"], ["pause", "suspend"] if quick_tier(tier) else ["pause", "suspend", "abort", "defer"],
+    for pn, lst in sweep(["collide", "collide3", "emptysave", "ckptinb", "dupopen", "cfg", "cfginb", "cfgdrop", "multimon"], ["pause", "suspend"] if quick_tier(tier) else ["pause", "suspend", "abort", "defer"],
                          ["resume"], record_intr=True):
         if isinstance(lst, dict):
             raise RuntimeError(f"baseline of {pn} failed: {lst['error']}")
@@ -632,6 +642,16 @@ def suspender_scenarios(tier):
                 out.append(mk2(f"trip@{p},put0@{p + 3}", [], [{"at": p, "kind": "sig_put", "arg": "sig1", "value": 1},
                                                               {"at": p + 3, "kind": "sig_put", "arg": "sig1", "value": 0},
                                                               {"at": "blocked", "kind": "sig_put", "arg": "sig1", "value": 0}]))
+        # A2. a suspender with a settle time (sleep > 0): the signal goes bad again inside the settle window -- the release that
+        #     is already scheduled must not end the new suspension
+        if plan == "simple":
+            sus_slow = {"s1": {"signal": "sig1", "kwargs": {"sleep": 2.0}}, "s2": {"signal": "sig2"}}
+            for p in (3, 6, 9):
+                sc = mk(plan, f"settle:trip@{p},put0@{p + 2},retrip@idle,put0@blocked", {"sig1": 0, "sig2": 0}, [["sus_install", "s1", 0]],
+                        [{"at": p, "kind": "sig_put", "arg": "sig1", "value": 1}, {"at": p + 2, "kind": "sig_put", "arg": "sig1", "value": 0},
+                         {"at": "idle", "kind": "sig_put", "arg": "sig1", "value": 1}, {"at": "blocked", "kind": "sig_put", "arg": "sig1", "value": 0}])
+                sc["suspenders"] = sus_slow
+                out.append(sc)
         # A'. paused while held by the tripped suspender; the suspender is removed / released while paused; then resume
         for p in range(0, 2):      # (only points 0 and 1 exist before the engine blocks on the tripped suspender)
             for dec in ("sus_remove:s1", "sig_put:sig1:0"):
